@@ -509,16 +509,19 @@ func (g *Gen) scenLabelReuse() []N {
 }
 
 // FamilyProgram is a program made of n fragments of the dedicated families of property C01
-// (scenLabelReuse here, scenConvOrder in gen_scen.go).  They are not part of scenario(): the
+// (scenLabelReuse here, scenConvOrder in gen_scen.go, scenCatchScope in gen_catchscope.go).  They are not part of scenario(): the
 // generator is shared with other properties, whose programs of a given seed stay what they were.
 func (g *Gen) FamilyProgram(n int) []N {
 	g.inFunc, g.loops, g.breakOK, g.labels, g.funcs, g.vars, g.objs, g.params = false, 0, 0, nil, nil, nil, nil, nil
 	body := []N{Var("a", Num(1)), Var("b", Str("s")), Var("c", nil), Var("n", Num(0))}
 	for i := 0; i < n; i++ {
-		if g.chance(55) {
+		switch r := g.pick(100); {
+		case r < 40:
 			body = append(body, g.scenLabelReuse()...)
-		} else {
+		case r < 75:
 			body = append(body, g.scenConvOrder()...)
+		default:
+			body = append(body, g.scenCatchScope()...)
 		}
 	}
 	return body
